@@ -234,7 +234,7 @@ def drive_sweep(cs, scn, rec, seed, modes, max_steps=2500, after_goal=120):
                             continue
                         progressed = progressed or bool(ev["post_rows"])
                         if ev["post_rows"] and len(held) < 6 and rng.random() < 0.3:
-                            held.append(env.current_state)
+                            held.append(rec.hold(env.current_state))
                         if rng.random() < 0.03:
                             rec.goal(e, None)
                         if ev["term"]:
